@@ -30,6 +30,10 @@ type ewSpec struct {
 	Engine tensor.Engine
 	// MaskA/MaskB: optional masks over logical positions (C15)
 	MaskA, MaskB []bool
+	// FixA/FixB/FixS: operand values given by the caller instead of drawn from the value class (C17: the same values in every element type)
+	FixA, FixB []interface{}
+	FixS       interface{}
+	FixD       []interface{} // initial content of an incr destination
 }
 
 func (s ewSpec) key() string {
@@ -341,19 +345,30 @@ func ewRun(c *core.Ctx, sp ewSpec) *ewObs {
 	o := &ewObs{sp: sp}
 	n := model.Size(sp.Shape)
 	var pre string
-	o.A, pre = ewBuild(c, sp.T, sp.Shape, sp.LayA, ewValues(c, sp.T, n, sp.Vals, 0), sp.Engine, sp.MaskA)
+	va := sp.FixA
+	if va == nil {
+		va = ewValues(c, sp.T, n, sp.Vals, 0)
+	}
+	o.A, pre = ewBuild(c, sp.T, sp.Shape, sp.LayA, va, sp.Engine, sp.MaskA)
 	if pre != "" {
 		o.precond = pre
 		return o
 	}
 	if sp.Form == "TT" {
-		o.B, pre = ewBuild(c, sp.T, sp.Shape, sp.LayB, ewValues(c, sp.T, n, sp.Vals, 1), sp.Engine, sp.MaskB)
+		vb := sp.FixB
+		if vb == nil {
+			vb = ewValues(c, sp.T, n, sp.Vals, 1)
+		}
+		o.B, pre = ewBuild(c, sp.T, sp.Shape, sp.LayB, vb, sp.Engine, sp.MaskB)
 		if pre != "" {
 			o.precond = pre
 			return o
 		}
 	} else if sp.Form != "T" {
-		o.scalar = ewValues(c, sp.T, 1, sp.Vals, 1)[0]
+		o.scalar = sp.FixS
+		if o.scalar == nil {
+			o.scalar = ewValues(c, sp.T, 1, sp.Vals, 1)[0]
+		}
 	}
 	var bm *model.ND
 	if o.B != nil {
@@ -378,7 +393,10 @@ func ewRun(c *core.Ctx, sp ewSpec) *ewObs {
 		}
 		var dv []interface{}
 		if sp.Mode == "incr" {
-			dv = gen.SmallInts(dt, n, c.Rng, 1, 3)
+			dv = sp.FixD
+			if dv == nil {
+				dv = gen.SmallInts(dt, n, c.Rng, 1, 3)
+			}
 		} else {
 			dv = gen.Canary(dt, n, 99)
 		}
